@@ -241,15 +241,13 @@ theorem decryptRest_quiet (p : Pkt) (hq : TlsQuiet P p.ptype) (s : St σ) (d? : 
     (hf : P.tlsNewData s.tls = false) :
     ∃ s1, FramePn s s1 ∧ FrameQ P s1 (decryptRest P s p d?).1 := by
   unfold decryptRest
-  have h2 := getFullPn_frame s p
   have flag : ∀ a, FramePn s a → P.tlsNewData a.tls = false := by
     intro a ha; obtain ⟨_, _, rfl⟩ := ha; exact hf
-  split <;> (rename_i heq2; rw [heq2] at h2)
-  · exact ⟨_, h2, FrameQ.refl P _ (flag _ h2)⟩
-  · repeat' split
-    all_goals first
-      | exact ⟨_, h2, FrameQ.refl P _ (flag _ h2)⟩
-      | exact ⟨_, h2, (handleFrames_quiet P p hq _ _ (flag _ h2)).1⟩
+  repeat' split
+  all_goals first
+    | exact ⟨_, FramePn.refl s, FrameQ.refl P _ hf⟩
+    | exact ⟨_, setLargestPn_frame s p _, FrameQ.refl P _ (flag _ (setLargestPn_frame s p _))⟩
+    | exact ⟨_, setLargestPn_frame s p _, (handleFrames_quiet P p hq _ _ (flag _ (setLargestPn_frame s p _))).1⟩
 
 /-! ### packet numbers and nonces -/
 
@@ -327,6 +325,36 @@ theorem pnResult_ok (largest pn n : Nat) (h : PnLenOk largest pn n) (iv : Bytes)
   · unfold PktNum.implUpdate
     split <;> omega
 
+/-- … and the bytes it returns are the packet number itself (what `set_largest_packet_number` reads back). -/
+theorem pnResult_ok_be (largest pn n : Nat) (h : PnLenOk largest pn n) (iv : Bytes) (hiv : 8 ≤ iv.length) :
+    ∃ b, pnResult largest (pnBytes n pn) = .ok b ∧ nonceOf iv b = nonce iv pn ∧ Bytes.beNat b = pn := by
+  obtain ⟨hn, hlo, hhi, hpn⟩ := h
+  have hd := TLX.Props.C16.pn_decode_window n largest pn hn hlo hhi hpn
+  unfold pnResult
+  rw [pnBytes_length, beNat_pnBytes, hd]
+  split
+  · rename_i hs
+    have ht : pn % 2 ^ (8 * n) = pn := by
+      have : PktNum.implDecode (2 ^ (8 * n)) (2 ^ 62) largest (pn % 2 ^ (8 * n)) = pn % 2 ^ (8 * n) := by
+        unfold PktNum.implDecode; rw [if_pos hs]
+      rw [this] at hd; exact hd
+    refine ⟨_, rfl, ?_, by rw [beNat_pnBytes, ht]⟩
+    unfold pnBytes
+    rw [ht]
+    have hlt : pn < 256 ^ n := by
+      rw [← pow8, ← ht]; exact Nat.mod_lt _ (Nat.pow_pos (by omega))
+    exact nonceOf_be iv n pn (by omega) hlt
+  · have hb : pn < u64Bound := by
+      have h1 : pn < 2 ^ 62 := Nat.lt_of_le_of_lt (Nat.le_add_right _ _) hpn
+      have h2 : 2 ^ 62 ≤ u64Bound := Nat.pow_le_pow_right (by omega) (by omega)
+      exact Nat.lt_of_lt_of_le h1 h2
+    rw [if_neg (Nat.not_le.mpr hb)]
+    have hb8 : pn < 256 ^ 8 := by rw [← u64_eq]; exact hb
+    refine ⟨_, rfl, nonceOf_be iv 8 pn hiv hb8, ?_⟩
+    have := QuicVarint.accBE_ofNatBE 0 8 pn hb8
+    simp only [Nat.zero_mul, Nat.zero_add] at this
+    exact this
+
 /-! ### the sender's header is the model's AAD -/
 
 theorem assocData_emit (sealFn : Seal) (alg : Alg) (k : DirKeys) (x : SPkt) :
@@ -360,15 +388,16 @@ theorem decryptRest_emitted (L : SealLaws P.prims) (s : St σ) (p : Pkt) (d : De
     (hwf : WellFormedSeq frames) (hk : AeadOk d.alg k.key.length k.iv.length 16) (hiv : 8 ≤ k.iv.length) :
     decryptRest P s p (some d) =
       handleFrames P (pnStore s p.isServer sp (max largest pn)) p ((normalize frames).map QFrame.toParsed) := by
-  obtain ⟨⟨b, hb1, hb2⟩, hmax⟩ := pnResult_ok largest pn n hlen k.iv hiv
+  obtain ⟨b, hb1, hb2, hb3⟩ := pnResult_ok_be largest pn n hlen k.iv hiv
+  have hmax : PktNum.implUpdate largest pn = max largest pn := by unfold PktNum.implUpdate; split <;> omega
   unfold decryptRest getFullPn
-  simp only [hsp, hattr, Bool.not_true, Bool.false_eq_true, if_false, hpn, hl, hmax, hb1, haad]
+  simp only [hsp, hattr, Bool.not_true, Bool.false_eq_true, if_false, hpn, hl, hb1, haad]
   have hdec : decDecrypt P d p.payload b hdr p.isServer = .ok (encodeAll frames) := by
     unfold decDecrypt
     rw [hdir, hpl]
     simp only [hb2]
     exact L.open_seal _ _ _ _ _ _ (by rw [nonce_length]; exact hk)
-  simp only [hdec, QuicFrameSeq.frames_roundtrip frames hwf]
+  simp only [hdec, QuicFrameSeq.frames_roundtrip frames hwf, setLargestPn, hsp, hl, hb3, hmax]
 
 end TLX.Lemmas.QuicSession
 
